@@ -309,6 +309,29 @@ func CompareMarkdown(d *logical.Doc, md string, o MDOpts) (probs []Problem, stat
 			}
 		}
 	}
+	// Markdown expresses nesting relatively (an item indented further than its
+	// predecessor is one level deeper, however much further): an authored level
+	// jump (level 1 -> 3) therefore reads back as depth+1. The expected depth is
+	// the rank of the authored level on the stack of enclosing authored levels.
+	rankDepth := map[string]int{}
+	{
+		var stack []int
+		for _, u := range d.Units() {
+			if u.Kind != "item" {
+				stack = stack[:0]
+				continue
+			}
+			for len(stack) > 0 && stack[len(stack)-1] >= u.Level {
+				stack = stack[:len(stack)-1]
+			}
+			if u.Para != nil {
+				if tk := u.Para.Tokens(); len(tk) > 0 {
+					rankDepth[tk[0]] = len(stack)
+				}
+			}
+			stack = append(stack, u.Level)
+		}
+	}
 	for _, u := range d.Units() {
 		toks := u.Para.Tokens()
 		if len(toks) == 0 {
@@ -360,7 +383,7 @@ func CompareMarkdown(d *logical.Doc, md string, o MDOpts) (probs []Problem, stat
 			if !o.NoListKind && b.Ordered != u.Ordered {
 				probs = append(probs, Problem{"list-kind", fmt.Sprintf("list item %s: ordered=%v in the Markdown, authored ordered=%v (depth %d)", toks[0], b.Ordered, u.Ordered, u.Level)})
 			}
-			if b.Depth != u.Level {
+			if want, ok := rankDepth[toks[0]]; b.Depth != u.Level && !(ok && b.Depth == want) {
 				probs = append(probs, Problem{"list-depth", fmt.Sprintf("list item %s: nesting depth %d (indent %d) in the Markdown, authored depth %d", toks[0], b.Depth, b.Indent, u.Level)})
 			}
 		}
